@@ -55,6 +55,7 @@ def run(chk):
     chk.section("cross-block", lambda: l6(chk))
     chk.section("borrow-shadowing", lambda: borrow_shadowing(chk))
     chk.section("projections-of-temporaries", lambda: projections(chk))
+    chk.section("diverging-branch", lambda: diverging_branch(chk))
     for i in range(NCH):
         chk.section(f"bounded-{i}", lambda i=i: bounded(chk, i))
     chk.expected_min_obligations = 40
@@ -164,6 +165,43 @@ def projections(chk):
                 chk.prove_paths(f"projection-of-a-temporary[{'.'.join(f'{k_}{i}' for k_, i in zip(kinds, picks))}]:rejected<=>some-other-component-at-some-level-is-not-droppable/\\the-value-is-checked-once",
                                 e.explore(t), post, func=f"{LC}:BBLinearityChecker.visit_FieldAccessAndDrop", replay=lambda m_: {"script": REPLAY_PROJ, "input": {}})
     chk.use_engine(e)
+
+
+REPLAY_DIVERGE = r'''
+import tempfile, importlib.util, os, sys, shutil
+from guppylang_internals.error import GuppyError
+I = INPUT
+BODIES = {"one-branch-diverges": "    if b:\n        while True:\n            pass\n",
+          "whole-body-diverges": "    while True:\n        pass\n",
+          "diverging-loop-uses-the-argument": "    if b:\n        while True:\n            h(q)\n",
+          "else-branch-diverges": "    if b:\n        h(q)\n    else:\n        while True:\n            pass\n"}
+src = "from guppylang import guppy\nfrom guppylang.std.quantum import qubit, h\n@guppy\ndef f(q: qubit, b: bool) -> None:\n" + BODIES[I["case"]]
+d = tempfile.mkdtemp(dir=os.environ.get("TMPDIR", "/var/tmp")); fn = os.path.join(d, "replay_c06d.py"); open(fn, "w").write(src)
+spec = importlib.util.spec_from_file_location("replay_c06d", fn); m = importlib.util.module_from_spec(spec); sys.modules["replay_c06d"] = m
+spec.loader.exec_module(m)
+try:
+    m.f.check(); got = "accepted"
+except GuppyError as ex:
+    got = "rejected:" + type(ex.error).__name__
+shutil.rmtree(d, ignore_errors=True)
+print(json.dumps({"violates": got != "accepted", "evaluations": 1, "observed": got, "required": "accepted: every path that reaches the exit hands the borrowed qubit back", "detail": f"{I['case']}: {got}"}))
+'''
+
+
+def diverging_branch(chk):
+    """BOUNDED: a borrowed qubit and a branch that never terminates — no path that reaches the exit violates the
+    path condition, so the core-fragment program is accepted (the converse direction of the property)."""
+    import json
+    from pyvc.report import run_replay
+    for case in ("one-branch-diverges", "whole-body-diverges", "diverging-loop-uses-the-argument", "else-branch-diverges"):
+        res = run_replay(REPLAY_DIVERGE, {"case": case}, chk.repo, timeout=600)
+        if "evaluations" not in res:
+            chk.undecided(f"bounded:borrowed-argument-and-divergence[{case}]", "oracle run failed: " + json.dumps(res)[:500])
+            continue
+        o = chk.bounded_result(f"bounded:borrowed-argument-and-divergence[{case}]:accepted", not res.get("violates"), 1, detail=res.get("detail"),
+                               witness={"case": case, "observed": res.get("observed")} if res.get("violates") else None, func=f"{LC}:check_cfg_linearity")
+        if res.get("violates"):
+            o.replay.update({"script": REPLAY_DIVERGE, "input": {"case": case}})
 
 
 def world(e, it, flags):
